@@ -76,7 +76,17 @@ func TestVerifC42TxnBlock(t *testing.T) {
 		}
 		return ToInt(row.GetVal(hdr, "v", nil, nil))
 	}
-	exits := []string{"normal", "return", "throw", "break", "continue"}
+	// "rterr": the body fails with a runtime / builtin error (a Go string or error panic, not a
+	// Suneido exception value): unknown method, nonexistent table, readonly object, bad call
+	exits := []string{"normal", "return", "throw", "break", "continue", "rterr"}
+	rterrs := [][2]string{
+		{"t.NoSuchMethod()", "method not found"},
+		{"t.QueryDo('insert { k: 1 } into nosuchtable')", "nonexistent table"},
+		{"#(1, 2).Add(3)", "readonly"},
+		{"(123)()", "can't call"},
+		{"t.Query1('tt where')", "syntax error"},
+		{"Object().x.y", "member not found"},
+	}
 	ends := []string{"active", "active", "active", "completed", "aborted"}
 	for i := 0; i < n; i++ {
 		exit := exits[i%len(exits)]
@@ -112,6 +122,7 @@ func TestVerifC42TxnBlock(t *testing.T) {
 			fmt.Fprintf(&body, "t.QueryDo('insert { k: %d, v: 1 } into tt'); ", base+50)
 		}
 		var leave, wantVal string
+		var rt [2]string
 		switch exit {
 		case "normal":
 			leave, wantVal = "77", `"after:77"`
@@ -123,6 +134,9 @@ func TestVerifC42TxnBlock(t *testing.T) {
 			leave = "break"
 		case "continue":
 			leave = "continue"
+		case "rterr":
+			rt = rterrs[r.Intn(len(rterrs))]
+			leave = rt[0]
 		}
 		src := fmt.Sprintf(`function () { i = 1; r = Transaction(update:) {|t| %s%s }; return "after:" $ Display(r) }`,
 			body.String(), leave)
@@ -139,7 +153,7 @@ func TestVerifC42TxnBlock(t *testing.T) {
 		th.Close()
 		rows := countRows(base, base+100)
 		effExit := exit
-		if useAfterEnd {
+		if useAfterEnd || exit == "rterr" {
 			effExit = "throw"
 		}
 		// classify what the implementation did
@@ -161,7 +175,9 @@ func TestVerifC42TxnBlock(t *testing.T) {
 			}
 		case strings.Contains(exc, "transaction.Complete failed"):
 			raised = "completefailed"
-		case effExit == "throw" && !useAfterEnd && strings.Contains(exc, "boom"),
+		case exit == "rterr" && !useAfterEnd && (strings.Contains(exc, rt[1]) ||
+			end != "active" && strings.HasPrefix(rt[0], "t.") && strings.Contains(exc, "ended")),
+			exit == "throw" && !useAfterEnd && strings.Contains(exc, "boom"),
 			useAfterEnd && strings.Contains(exc, "ended"),
 			effExit == "break" && strings.Contains(exc, "block:break"),
 			effExit == "continue" && strings.Contains(exc, "block:continue"):
@@ -180,6 +196,9 @@ func TestVerifC42TxnBlock(t *testing.T) {
 		}
 		tr.Q(fmt.Sprintf("blk %s %s %s", end, effExit, lib.B(commitOk)), dbOut+" "+raised)
 		tr.Count(fmt.Sprintf("blk:%s:%s:conflict=%v:nested=%v", end, effExit, conflict, nested))
+		if exit == "rterr" {
+			tr.Count("rterr:" + rt[1])
+		}
 		tr.Sample(src)
 		// direct oracle: the property as worded (independent of the model)
 		if end == "active" {
@@ -193,6 +212,22 @@ func TestVerifC42TxnBlock(t *testing.T) {
 				fail("txn-block:"+effExit+":exception-lost", fmt.Sprintf("%s -> %s / %v", src, exc, val))
 			case finishes && !commitOk && (dbOut != "rolledback" || raised != "completefailed"):
 				fail("txn-block:"+effExit+":failed-commit-not-reported", fmt.Sprintf("%s -> %s %s", src, dbOut, raised))
+			}
+		}
+		if end != "active" {
+			// the block ended the transaction itself: the database follows that, and whatever
+			// leaves the block afterwards (exception, return, break, continue) still propagates
+			want := "committed"
+			if end == "aborted" {
+				want = "rolledback"
+			}
+			switch {
+			case dbOut != want:
+				fail("txn-block:"+effExit+":explicit-end-overridden", fmt.Sprintf("%s -> %s", src, dbOut))
+			case effExit != "normal" && raised != "same":
+				fail("txn-block:"+effExit+":exception-lost", fmt.Sprintf("(after explicit %s) %s -> %s / %v", end, src, exc, val))
+			case effExit == "normal" && raised != "none":
+				fail("txn-block:normal:spurious-exception", fmt.Sprintf("%s -> %s", src, exc))
 			}
 		}
 		// no transaction may be left open
